@@ -185,11 +185,12 @@ def worker(ctx):
     c = T.corpus()
     ids = list(range(len(c)))
     _random.Random(ctx.seed).shuffle(ids)
-    src = [c[i] for k, i in enumerate(ids[:cfg['n_corpus']]) if k % groups == group]
-    src += [s for k, (s, _) in enumerate(G.special()) if k % groups == group]
-    src += [s for k, s in enumerate(EXTRA) if k % groups == group]
+    # hand-made inputs first (a time budget reached on a loaded machine then costs corpus molecules, not input classes)
+    src = [s for k, s in enumerate(EXTRA) if k % groups == group]
     dim = G.symmetric_dimers()
     src += [s for k, s in enumerate(dim[ctx.seed % 7::7]) if k % groups == group]
+    src += [s for k, (s, _) in enumerate(G.special()) if k % groups == group]
+    src += [c[i] for k, i in enumerate(ids[:cfg['n_corpus']]) if k % groups == group]
     digests = {}
     for s in src:
         if ctx.out_of_time():
